@@ -645,5 +645,55 @@ def rule_a11(repo):
     return res
 
 
+def _conv_skeleton(flow, e, depth=0):
+    """the conversion an expression builds, as the nesting of its combinators (calls of `.._conv`), other arguments left out;
+    a local with several definitions that all build the same conversion stands for it"""
+    if isinstance(e, ast.Name) and flow.is_local(e.id) and depth < 4:
+        sk = {_conv_skeleton(flow, r, depth + 1) for k, r in flow.defs[e.id] if k == 'value'}
+        return sk.pop() if len(sk) == 1 else ''
+    if isinstance(e, ast.Call) and (call_name(e) or '').split('.')[-1].endswith('_conv'):
+        return '%s(%s)' % (call_name(e).split('.')[-1], ', '.join(x for x in (_conv_skeleton(flow, a, depth) for a in e.args) if x))
+    return ''
+
+
+def rule_a12(repo):
+    """A tactic that hands a goal over to a macro states, at edit time, the subgoal the macro will leave (a `sorry` line
+    with that statement); the macro recomputes the subgoal when the proof is checked in full.  Both obtain it by running a
+    conversion over the goal: it has to be the same conversion, or the stated gap is not the statement the macro needs
+    ((%x. g (f x)) a = c instead of g (f a) = c) and the full check of a proof that was edited without error fails."""
+    from ..macros import macro_index
+    res = RuleResult('C13.A12', 'a tactic states the subgoal of the macro it hands over to by the conversion that macro uses', floor=2)
+    names = {}
+    for mi in macro_index(repo):
+        for n in mi.names:
+            names[n] = mi
+    m = repo.module('logic/tactic.py')
+
+    def biggest(f):
+        flow = flow_of(f.node)
+        sks = [_conv_skeleton(flow, n.value) for n in ast.walk(f.node) if isinstance(n, ast.Assign)]
+        sks = [x for x in sks if x]
+        return max(sks, key=len) if sks else None
+    for c in m.classes.values():
+        gp = c.methods.get('get_proof_term')
+        if gp is None:
+            continue
+        used = sorted({x.value for x in ast.walk(gp.node) if isinstance(x, ast.Constant) and isinstance(x.value, str) and x.value in names})
+        sk_t = biggest(gp)
+        if not used or not sk_t:
+            continue
+        for nm in used:
+            g = names[nm].cls.find_method('get_proof_term')
+            sk_m = biggest(g) if g is not None else None
+            if not sk_m:
+                continue
+            ok = sk_t == sk_m
+            res.add('logic/tactic.py :: %s :: same-conversion-as(%s)' % (c.name, nm), ok,
+                    'both use %s' % sk_t if ok else
+                    'the tactic computes the new goal with %s, the macro %s with %s: the gap stated at edit time is not the statement the macro '
+                    'reduces the goal to, and the full check fails although every editing step succeeded' % (sk_t, nm, sk_m), gp.loc)
+    return res
+
+
 def rules(repo):
-    return [rule_a1(repo), rule_a2(repo), rule_a3(repo), rule_a4(repo), rule_a5(repo), rule_a6(repo), rule_a7(repo), rule_a8(repo), rule_a9(repo), rule_a10(repo), rule_a11(repo)]
+    return [rule_a1(repo), rule_a2(repo), rule_a3(repo), rule_a4(repo), rule_a5(repo), rule_a6(repo), rule_a7(repo), rule_a8(repo), rule_a9(repo), rule_a10(repo), rule_a11(repo), rule_a12(repo)]
